@@ -328,6 +328,16 @@ def job(arg):
     two = prefix == ("two",)
     if two:
         prefix = ()
+    first = arg[6] if len(arg) > 6 else None
+    if first is not None:
+        # the deepest jobs are split by their first event (one job each, the search goes on behind it): the jobs share no
+        # visited set, so some states are visited by several of them - the union is the search to the full depth
+        st0 = build0((), False)
+        ev = list(events_of(st0))[first]
+        st0.world.dispose()
+        prefix = (ev,)
+        name += "-first=%d" % first
+        depth -= 1
 
     def build(hist):
         return build0(tuple(prefix) + tuple(hist), two)
@@ -373,6 +383,14 @@ def run(tier, seed, jobs):
                 else:
                     # the deepest histories away from the message-ID wrap; one level less around it (the wrap has its own jobs below)
                     d = (6 if con else 5) if mid0 == 0x7000 else (5 if con else 4)
+                    if d == 6:
+                        global KEYS
+                        KEYS = keys_for(M)
+                        st0 = make_build(kind, con, mid0)((), False)
+                        n_first = len(list(events_of(st0)))
+                        st0.world.dispose()
+                        work += [(kind, con, mid0, d, None, M, i) for i in range(n_first)]
+                        continue
                 work.append((kind, con, mid0, d))
     # request message IDs around 0 (and the server's own counter wrapping onto them)
     for kind in ("fast", "supp", "slow") if tier == "quick" else KINDS:
